@@ -95,7 +95,7 @@ where
     }
     let namespaces = xmlns
         .iter()
-        .map(|(k, v)| format!("\"{k}\" = \"{v}\""))
+        .map(|(k, v)| format!("\"{k}\" = {v:?}"))
         .collect::<Vec<String>>()
         .join(", ");
 
@@ -115,10 +115,10 @@ where
                 let abbreviation = namespace.abbreviation.as_str();
                 writeln!(
                     writer,
-                    "#[yaserde(prefix = \"{abbreviation}\", rename = \"{rust_type}\")]"
+                    "#[yaserde(prefix = \"{abbreviation}\", rename = {rust_type:?})]"
                 )?;
             } else {
-                writeln!(writer, "    #[yaserde(rename = \"{rust_type}\")]")?;
+                writeln!(writer, "    #[yaserde(rename = {rust_type:?})]")?;
             }
 
             // todo: we should check if the "mustUnderstand" == 1 to make the field required
@@ -167,13 +167,13 @@ where
         let abbreviation = namespace.abbreviation.as_str();
         writeln!(
             writer,
-            "    #[yaserde(prefix = \"{abbreviation}\", rename = \"{xml_name}\")]"
+            "    #[yaserde(prefix = \"{abbreviation}\", rename = {xml_name:?})]"
         )?;
         let body = to_pascal_case(body);
         writeln!(writer, "    pub {body_field_name}: {mod_name}::{body},",)?;
     } else {
         let body = to_pascal_case(body);
-        writeln!(writer, "    #[yaserde(rename = \"{xml_name}\")]")?;
+        writeln!(writer, "    #[yaserde(rename = {xml_name:?})]")?;
         writeln!(writer, "    pub {body_field_name}: {body},")?;
     }
     writeln!(writer, "}}")?;
